@@ -1,10 +1,10 @@
 CONSTANTS
+  TREEONLY = TRUE
   MUT = 0
   NK = 10
   Keys <- MCKeys
   HashOf <- MCHash
   InitLists <- MCInit
 SPECIFICATION Spec
-VIEW TreeView
 INVARIANTS RBInvariants LookupsOK TooSmallOnlyWhenSmall
 CHECK_DEADLOCK FALSE
